@@ -14,6 +14,19 @@
 #include "net_model.hpp"
 
 namespace coloquinte {
+#ifdef COLOQUINTE_VERIF
+namespace verif {
+void (*onGlobalLoop)(const char *kind, const double *values,
+                     int nbValues) = nullptr;
+namespace {
+void logGlobalLoop(const char *kind, const std::vector<double> &values) {
+  if (onGlobalLoop != nullptr) {
+    onGlobalLoop(kind, values.data(), (int)values.size());
+  }
+}
+}  // namespace
+}  // namespace verif
+#endif
 
 namespace {
 /**
@@ -176,6 +189,12 @@ void GlobalPlacer::run() {
   float lb = valueLB();
   float ub = std::numeric_limits<float>::infinity();
   int firstStep = params_.global.nbInitialSteps + 1;
+#ifdef COLOQUINTE_VERIF
+  verif::logGlobalLoop(
+      "init", {averageCellLength_, lb, penalty_, penaltyCutoffDistance_,
+               approximationDistance_, nextPenaltyUpdateDistance,
+               distanceTolerance()});
+#endif
   for (step_ = firstStep; step_ <= params_.global.maxNbSteps; ++step_) {
     std::cout << "#" << step_ << ":" << std::flush;
     runUB();
@@ -190,6 +209,22 @@ void GlobalPlacer::run() {
     // there is nothing left to optimise
     bool noWirelength = ub <= 0.0f;
     float gap = (ub - lb) / ub;
+#ifdef COLOQUINTE_VERIF
+    {
+      int stopReason = 0;
+      if (noWirelength) {
+        stopReason = 1;
+      } else if (gap < params_.global.gapTolerance) {
+        stopReason = 2;
+      } else if (dist < distanceTolerance()) {
+        stopReason = 3;
+      }
+      verif::logGlobalLoop(
+          "step", {(double)step_, lb, ub, dist, gap, penalty_,
+                   penaltyCutoffDistance_, approximationDistance_,
+                   nextPenaltyUpdateDistance, (double)stopReason});
+    }
+#endif
     // Stop if distance or the difference between LB and UB is small enough
     if (noWirelength || gap < params_.global.gapTolerance ||
         dist < distanceTolerance()) {
@@ -215,6 +250,12 @@ void GlobalPlacer::run() {
     approximationDistance_ *=
         params_.global.continuousModel.approximationDistanceUpdateFactor;
   }
+#ifdef COLOQUINTE_VERIF
+  verif::logGlobalLoop(
+      "exit", {(double)step_, step_ <= params_.global.maxNbSteps ? 0.0 : 1.0,
+               lb, penalty_, penaltyCutoffDistance_, approximationDistance_,
+               nextPenaltyUpdateDistance});
+#endif
   runUB();
 }
 
